@@ -53,6 +53,16 @@ def roots(tier, seed):
                         case["history_probe"] = True
                         case["explore"] = 0
                         out.append(case)
+                    # history when the run is ended by the callback at call k
+                    for k in (1, 2, 2 * n + 2, 2 * n + 5):
+                        for hs in (None, 2):
+                            o = {"maxfev": 12 * n, "store_history": True}
+                            if hs:
+                                o["history_size"] = hs
+                            case = alpha.base_case(n, pats, "in", obj, cons, options=o,
+                                                   callback={"sig": "xk", "behav": "stop", "k": k})
+                            case["explore"] = 0
+                            out.append(case)
     out += ctrl.roots(tier, deep=False)
     return alpha.permute(out, seed)
 
